@@ -63,6 +63,13 @@ def make_ddf(gdf, parts, tag="in"):
     import dask.dataframe as dd
     if parts["mode"] == "even":
         return dd.from_pandas(gdf, npartitions=parts["k"], sort=False)
+    if parts["mode"] == "repartition":
+        # partitions produced by Dask itself (concat / split of the original chunks)
+        return dd.from_pandas(gdf, npartitions=parts["k"], sort=False).repartition(
+            npartitions=parts["to"])
+    if parts["mode"] == "concat_empty":
+        ddf = dd.from_pandas(gdf, npartitions=parts["k"], sort=False)
+        return dd.concat([ddf, dd.from_pandas(gdf.iloc[:0], npartitions=1, sort=False)])
     import uuid
     frames = [gdf.iloc[s] for s in parts["splits"]]
     # names must be unique per object: dask-expr deduplicates expressions by name.
